@@ -32,9 +32,9 @@ ASSUMPTIONS = [
 
 
 @st.composite
-def _case(draw, tier):
+def _case(draw, tier, force_pre_entry=False):
     N = 8 if tier == "quick" else 40
-    form = draw(st.sampled_from(["while", "while", "dowhile", "signal", "selfsignal", "waitlast", "chat"]))
+    form = draw(st.sampled_from(["while", "dowhile", "signal"] if force_pre_entry else ["while", "while", "dowhile", "signal", "selfsignal", "waitlast", "chat"]))
     step = draw(st.sampled_from([1, 1, 2, 3]))
     start = draw(st.integers(0, 5))
     iters = draw(st.integers(0, N))
@@ -53,7 +53,7 @@ def _case(draw, tier):
         "acc": prob(draw, 0.3),
         "nullable": prob(draw, 0.25),   # a second carried value that is None in some iterations (None is a value, not 'not produced yet')
         "two_signals": draw(st.booleans()),  # signal form: the gate waits for an early signal AND the end-of-iteration signal
-        "nested": prob(draw, 0.2),
+        "nested": prob(draw, 0.0 if force_pre_entry else 0.2),
         "limit_off": draw(st.integers(0, 3)),
         "entry": 0,
     }
@@ -69,12 +69,19 @@ def _case(draw, tier):
         # a nested loop whose cycle has >= 2 nodes cannot be entered at all today (open finding F11, reported by C08):
         # the generator avoids that shape by construction so the budget is spent behind the finding
         L["k"] = 1
-    if form == "while" and not L["acc"] and not L["nested"] and L["k"] >= 2 and prob(draw, 0.3):
+    if form == "while" and not L["acc"] and not L["nested"] and L["k"] >= 2 and not force_pre_entry and prob(draw, 0.3):
         L["entry"] = draw(st.integers(1, L["k"] - 1))
     if L["entry"] != 0:
         L["nullable"] = False  # the second carried value is seeded together with `i`; a mid-body entry supplies t_k instead
     if form in ("while", "dowhile", "signal") and L["limit_input"] and not L["nested"] and L["entry"] == 0 and prob(draw, 0.35):
         L["pre_entry"] = True
+    if force_pre_entry and form in ("while", "dowhile", "signal") and not L["nested"] and L["entry"] == 0:
+        L["pre_entry"] = L["limit_input"] = True
+    if L.get("pre_entry") and prob(draw, 0.6):
+        # several configured entry points on ONE cycle (one call or chained, any order): each is downstream of the others, so
+        # the scope is the whole cycle plus what follows it, exactly as with b0 alone
+        L["entry_set"] = draw(st.lists(st.sampled_from([f"b{j}" for j in range(L["k"])]), min_size=1, max_size=3, unique=True))
+        L["entry_chain"] = draw(st.booleans())
     return {
         "loop": L,
         "order": draw(st.lists(st.integers(0, 9), min_size=10, max_size=10)),
@@ -123,6 +130,8 @@ def check_case(case, ev):
             labels.add(f)
     if L.get("entry"):
         labels.add("entry>0")
+    if len(L.get("entry_set") or []) > 1:
+        labels.add("several_entry_points_on_one_cycle")
 
     ctx = Ctx()
     g = make_graph(ctx, gspec, "sync")
